@@ -109,6 +109,17 @@ class Str(V):
         return "Str(%s)" % z3.simplify(self.t)
 
 
+class ListV(V):
+    """Vec / slice / iterator with a concrete number of (symbolic) elements"""
+    __slots__ = ("items", "ty")
+
+    def __init__(self, items, ty="Vec"):
+        self.items, self.ty = tuple(items), ty
+
+    def __repr__(self):
+        return "List%s" % (list(self.items),)
+
+
 class FnV(V):
     __slots__ = ("name", "captures")
 
@@ -557,7 +568,21 @@ class Engine:
             if isinstance(v, Lazy):
                 return Lazy("%s@%s" % (v.name, proj[1]), v.ty)
             raise Inconclusive("downcast of %r" % (v,))
+        if k == "elem":
+            if isinstance(v, ListV) and 0 <= proj[1] < len(v.items):
+                return v.items[proj[1]]
+            raise Inconclusive("element %r of %r" % (proj[1], v))
         if k in ("index", "constindex"):
+            if isinstance(v, ListV):
+                if k == "constindex":
+                    i = proj[1]
+                else:
+                    iv = self.read_place(st, Place(proj[1]))
+                    sv = z3.simplify(iv.t) if isinstance(iv, Int) else None
+                    i = sv.as_long() if sv is not None and z3.is_bv_value(sv) else None
+                if i is not None and 0 <= i < len(v.items):
+                    return v.items[i]
+                raise Inconclusive("index %r into %r" % (proj, v))
             if isinstance(v, Agg) and k == "constindex" and proj[1] in v.fields:
                 return v.fields[proj[1]]
             if isinstance(v, Agg) and k == "index":
@@ -595,6 +620,10 @@ class Engine:
         if p[0] == "downcast":
             if isinstance(v, EnumV):
                 return self.write_proj(v, projs[1:], new, st)
+        if p[0] in ("elem", "constindex") and isinstance(v, ListV) and 0 <= p[1] < len(v.items):
+            items = list(v.items)
+            items[p[1]] = self.write_proj(items[p[1]], projs[1:], new, st)
+            return ListV(items, v.ty)
         raise Inconclusive("write through projection %r of %r" % (p, v))
 
     def resolve_place(self, st, pl):
@@ -1111,21 +1140,34 @@ class Engine:
         return [st]
 
     def havoc_refs(self, st, args, callee):
-        """A havocked callee may write through every `&mut` it receives."""
-        for a in args:
-            if isinstance(a, Ref) and a.mut:
-                try:
-                    old = self.load(st, a.cell, a.path)
-                except Inconclusive:
-                    old = None
-                ty = getattr(old, "ty", "?") if old is not None else "?"
-                if isinstance(old, Int):
-                    new = self.make_lazy(st.fresh("mut"), old.ty)
-                elif isinstance(old, Bool):
-                    new = self.make_lazy(st.fresh("mut"), "bool")
-                else:
-                    new = Lazy(sanitize(st.fresh("mut")), ty)
+        """A havocked callee may write through every `&mut` it receives (also inside tuples / structs)."""
+        todo, refs, seen = list(args), [], 0
+        while todo and seen < 200:
+            a = todo.pop()
+            seen += 1
+            if isinstance(a, Ref):
+                if a.mut:
+                    refs.append(a)
+            elif isinstance(a, (Agg, EnumV)):
+                todo.extend(a.fields.values())
+            elif isinstance(a, ListV):
+                todo.extend(a.items)
+        for a in refs:
+            try:
+                old = self.load(st, a.cell, a.path)
+            except Inconclusive:
+                old = None
+            ty = getattr(old, "ty", "?") if old is not None else "?"
+            if isinstance(old, Int):
+                new = self.make_lazy(st.fresh("mut"), old.ty)
+            elif isinstance(old, Bool):
+                new = self.make_lazy(st.fresh("mut"), "bool")
+            else:
+                new = Lazy(sanitize(st.fresh("mut")), ty if isinstance(ty, str) else "?")
+            try:
                 self.store(st, a.cell, a.path, new)
+            except Inconclusive:
+                pass
 
     def do_call(self, st, t):
         _, dest, callee, argops, ret_bb = t
@@ -1142,6 +1184,11 @@ class Engine:
                 if res is NotImplemented:
                     continue
                 self.stats["summarised"] += 1
+                if isinstance(res, tuple) and len(res) == 3 and res[0] == "invoke":
+                    nf = self.new_frame(st, res[1], res[2])
+                    nf.dest, nf.ret_bb = dest, ret_bb
+                    st.frames.append(nf)
+                    return [st]
                 return self.finish_call(st, dest, ret_bb, res)
         # 2. inline crate-local
         target = self.prog.resolve_call(callee, fr.fn)
